@@ -17,10 +17,25 @@ var exprDialects = []string{"my", "pg"}
 // fragment, the model must call it producible (tie of `parse_producible`) and the real printer + parser must give it
 // back (the property itself, `expr_roundtrip`).
 func checkParse(r *core.Run, d, text string) *ETree {
-	toks := tokenize(d, text)
+	toks := tokenize(d, text, true)
+	// hypothesis `AllOk` of `parse_producible`: a number token of the real tokenizer is unsigned and not empty
+	for _, tk := range toks {
+		for _, pre := range []string{"l:1:", "l:2:", "l:3:"} {
+			if strings.HasPrefix(tk, pre) {
+				v := tk[len(pre):]
+				r.Check(v != "-" && !strings.HasPrefix(v, "2d"), "expr-token-shape", fmt.Sprintf("[%s] the tokenizer produced the number token %s for %s", d, tk, trunc(text)))
+			}
+		}
+	}
 	line := fmt.Sprintf("C13.expr.parse %s %s %d %s", d, hexS(text), len(toks), strings.Join(toks, " "))
 	impl := r.Impl(line)
 	r.Tag("expr-parse:" + firstWordOf(impl))
+	for i := 0; i+1 < len(toks); i++ {
+		if toks[i] == "s:MOD" && toks[i+1] == "s:'('" {
+			// rule function_call_conflict: the keyword MOD used as a function name – outside the fragment
+			impl = "outside"
+		}
+	}
 	if impl == "outside" {
 		return nil
 	}
